@@ -458,7 +458,17 @@ def build(desc):
     for b in desc["bonds"]:
         o.connect(b["a1"], b["a2"], label=b["label"], btype=BondType(b["btype"]), stereo=BondStereo(b["stereo"]),
                   f_order=float.fromhex(b["f_order"]), attrib=from_j(b["attrib"]))
+    if desc.get("adopt") and n >= 2:
+        # the object's Atom objects are also listed, in another order, by a second container built afterwards (the public
+        # constructors adopt atoms without copying): the stored object is unchanged by that, and so must be what is read back
+        other = ml.Molecule(list(reversed(o.atoms)))
+        if desc["adopt"] == "kept":
+            ADOPTERS.append(other)
+        del other
     return o
+
+
+ADOPTERS = []     # second containers kept alive for the whole run
 
 
 def describe(o, kind):
@@ -765,6 +775,8 @@ def gen_desc(rng, E, kind, ver, max_atoms=8, risky=False):
          "coords": hx(gen_float(rng, -60, 60, sp) for _ in range(k * n * 3)),
          "charges": hx(gen_float(rng, -1.5, 1.5, sp / 2) for _ in range(k * n)),
          "weights": hx(gen_float(rng, 0, 3, sp / 2) for _ in range(k)) if kind == "ens" else []}
+    r = rng.random()
+    d["adopt"] = ("kept" if r < 0.12 else "dropped" if r < 0.18 else None) if n >= 2 else None
     return d
 
 
@@ -1150,6 +1162,8 @@ def run(ctx, rep):
         if any(x != x for x in it["inp"]["coords"]):
             rep.count("coords:has-nan")
         rep.count("outcome:" + it["outcome"])
+        if (it.get("desc") or {}).get("adopt"):
+            rep.count("atoms-also-listed-by-a-second-container:" + it["desc"]["adopt"])
         vs = judge_item(it)
         for sig, what in vs:
             if sig in known:
@@ -1157,7 +1171,7 @@ def run(ctx, rep):
             else:
                 found = True
             rp = it["replay"] if "replay" in it else \
-                {"kind": "case", "ver": it["ver"], "desc": {**desc_of(it["inp"]), "ver": it["ver"]}} if it["src"] == "gen" \
+                {"kind": "case", "ver": it["ver"], "desc": {**desc_of(it["inp"]), "ver": it["ver"], "adopt": (it.get("desc") or {}).get("adopt")}} if it["src"] == "gen" \
                 else {"kind": "bundled", "file": it["src"].split(":")[0], "key": it["src"].split(":", 1)[1], "ver": it["ver"]}
             rep.violate(sig, what, rp)
         try:
